@@ -1,6 +1,6 @@
 """C03 - Stoichiometry and net rate equations follow the reaction list."""
-CONTRACT_MODULES = ['types_model_shapes', 'types_propensities', 'simulator_interfaces', 'simulator_derivative']
-SPEC_MODULES = ['functions']
+CONTRACT_MODULES = ['types_model_shapes', 'types_propensities', 'types_terms', 'simulator_interfaces', 'simulator_derivative']
+SPEC_MODULES = ['functions', 'sympy_stub']
 LEVEL = 'proof'
 ASSUMPTIONS = ['the number of reactions in one model is enumerated (1 and 4-reaction shapes); column r of the matrices is written from reaction r alone (seen in _create_stochiometric_matrices), so per-reaction shapes carry the claim to any number of reactions - this last step is an argument, not a mechanised induction']
 TRUSTED = ['numpy zeros / concatenate / item assignment', 'dict insertion order']
